@@ -284,7 +284,13 @@ def run(ck):
             bad("from-string-returns-non-cap", "%s(%r) returned %r" % (api, given, res), wit)
             return
         cname = type(res).__name__
-        t = res.to_string()
+        try:
+            t = res.to_string()
+        except Exception as e:   # noqa -- a verdict, not a harness failure (seeded/C15-9)
+            wit["parsed_as"] = cname
+            bad("parsed-cap-does-not-serialise", "%s(%r) returned a %s whose to_string() raised %s"
+                % (api, given, cname, type(e).__name__), wit)
+            return
         wit["parsed_as"] = cname
         wit["to_string"] = show(t)
         if cname == "UnknownURI":
@@ -394,9 +400,23 @@ def run(ck):
             if ck.out_of_time():
                 break
             fields = M.rand_fields(rng, kind, minimal=(round_ == 0))
-            c = M.build(uri, kind, fields)
             want = M.fmt(kind, fields)
-            s = c.to_string()
+            c, exc = call(M.build, uri, kind, fields)
+            if exc is None:
+                s, exc = call(c.to_string)
+            if exc is not None:
+                # an exception here is a verdict, not a harness failure (seeded/C15-9: zero-length literal cap)
+                ck.mon("roundtrip")
+                bad("valid-cap-does-not-serialise", "%s built from valid fields: constructor/to_string raised %s"
+                    % (kind.cls, type(exc).__name__), {"kind": kind.name, "fields": fields, "format": show(want)})
+                r, exc2 = call(uri.from_string, want)
+                if exc2 is None:
+                    _, exc3 = call(r.to_string)
+                    if exc3 is not None:
+                        bad("parsed-cap-does-not-serialise", "from_string(%r).to_string() raised %s"
+                            % (want, type(exc3).__name__), {"input": show(want)})
+                ck.case("generated", key=("gen-exc", kind.name, want), nontrivial=True)
+                continue
             wit = {"kind": kind.name, "fields": fields, "to_string": show(s)}
             ck.mon("roundtrip")
             if s != want:
